@@ -93,5 +93,5 @@ func checkMemoryStoreAppend(c *Ctx, p *Prog, rule string) {
 			}
 		}
 	}
-	c.Floor(rule, "memory store Append accesses", n, 4)
+	c.Floor(rule, "memory store Append accesses", n, 3)
 }
